@@ -937,6 +937,24 @@ class C25DataStore(Base):
                                    traceback.format_exc(limit=8))
             return orig_put(item, *a, **kw)
         q.put = put
+        # proxies replaced by a reload (kept alive here so that id() stays
+        # unique)
+        self.replaced = {}
+        self.pooled_ever = {}
+        self.dup_noflow = set()
+        self.cmd_flow = None
+        pool = schd.pool
+        orig_reload = pool.reload
+
+        def reload(config, _orig=orig_reload):
+            before = {t.identity: t for t in pool.get_tasks()}
+            ret = _orig(config)
+            after = {t.identity: t for t in pool.get_tasks()}
+            for tid, old in before.items():
+                if after.get(tid) is not None and after[tid] is not old:
+                    mon.replaced[id(old)] = old
+            return ret
+        pool.reload = reload
         # which deltas come from a task proxy that is not the pooled one
         # (an instance removed while active whose job events still arrive)
         dsm = schd.data_store_mgr
@@ -950,10 +968,22 @@ class C25DataStore(Base):
             def wrapped(itask, *a, _orig=orig, **kw):
                 try:
                     cur = schd.pool._get_task_by_id(itask.identity)
-                    if cur is not itask:
+                    if cur is not itask and id(itask) in mon.replaced:
+                        # the pre-reload object of a task that is still in
+                        # the pool: nothing may act on it any more (not the
+                        # recorded mechanism, which is about removed tasks)
+                        mon.n['deltas_from_proxy_replaced_by_reload'] += 1
+                    elif cur is not itask:
                         mon.foreign.setdefault(itask.identity, []).append(
                             itask)
                         mon.n['deltas_from_proxy_not_in_pool'] += 1
+                        if id(itask) not in mon.pooled_ever and \
+                                mon.cmd_flow == ['none']:
+                            # a second proxy made for a pooled task by a
+                            # no-flow trigger (never in the pool itself)
+                            mon.dup_noflow.add(itask.identity)
+                    else:
+                        mon.pooled_ever[id(itask)] = itask
                 except Exception:
                     pass
                 return _orig(itask, *a, **kw)
@@ -966,9 +996,19 @@ class C25DataStore(Base):
     def vf(self, itask, key, what, detail):
         """A store/pool difference; classified by mechanism when deltas of
         another proxy object with the same id were seen."""
-        if self.is_foreign(itask):
+        if self.is_foreign(itask) and itask.identity in self.dup_noflow:
+            key = ('store-field-differs:delta-from-duplicate-proxy-made-by-'
+                   'no-flow-trigger')
+        elif self.is_foreign(itask):
             key = 'store-field-differs:delta-from-proxy-not-in-pool'
         self.v(key, what, detail)
+
+    def on_event(self, ev):
+        if ev['k'] == 'CMD_EXEC':
+            self.cmd_flow = list((ev.get('args') or {}).get('flow') or []) \
+                if ev['cmd'] == 'force_trigger_tasks' else None
+        elif ev['k'] == 'CMD_EXEC_END':
+            self.cmd_flow = None
 
     def store(self, schd):
         return schd.data_store_mgr.data[schd.data_store_mgr.workflow_id]
